@@ -16,7 +16,8 @@
 (*          merkle_path) for arity-2 shapes, bare in_ctl for arity-4       *)
 (*   chain  next_in = local_out under normal_chain_sel / merkle_chain_sel  *)
 (*          = !new_start && !in_ctl (&& merkle_path for the path)          *)
-(*   zero   compact D=1 layout only: capacity of a sponge chain start      *)
+(*   zero   compact D=1 layout only: capacity of a sponge chain start,     *)
+(*          stated on the next row of a window (FirstRowCovered)           *)
 (* The direction bit of a Merkle row is bound by the index accumulator     *)
 (* exposure (arity 2: `mmcs_index_sum`, enabled only if the caller passes  *)
 (* a target - recursion/src/pcs/mmcs.rs never does) or by a per-bit lookup *)
@@ -32,6 +33,9 @@ EXTENDS Naturals, Sequences, FiniteSets, TLC
 CONSTANTS Design,      \* "code" | "bound"
           Arity4,      \* BOOLEAN
           CompactD1,   \* BOOLEAN: the D = 1 width-16 layout (capacity zero-asserted on chain starts)
+          FirstRowCovered,  \* BOOLEAN: the zero assertion of a chain start is a constraint on the NEXT row of a window; it
+                            \* reaches the first row of the table only through the wrap-around from the last row (TRUE
+                            \* since /repo 5fca03e; before, it was gated on is_transition and row 1 was exempt)
           MaxSponge, MaxDepth
 
 VARIABLES rows, phase
@@ -65,7 +69,7 @@ BusSends(r, l) ==
     IF Design = "bound" THEN l.in_ctl
     ELSE l.in_ctl /\ (Arity4 \/ r.kind # "merkle")
 Chains(r, l) == ~r.new_start /\ ~l.in_ctl
-ZeroAsserted(r, l) == l.role = "pad" /\ r.new_start /\ r.kind = "sponge" /\ (CompactD1 \/ Design = "bound")
+ZeroAsserted(i, r, l) == l.role = "pad" /\ r.new_start /\ r.kind = "sponge" /\ ((CompactD1 /\ (i > 1 \/ FirstRowCovered)) \/ Design = "bound")
 
 EveryWitnessLimbBound ==
     \A i \in 1..Len(rows) : \A j \in 1..Len(rows[i].limbs) :
@@ -75,7 +79,7 @@ EveryChainedLimbBound ==
         rows[i].limbs[j].role = "chained" => Chains(rows[i], rows[i].limbs[j])
 PadsAreFixed ==
     \A i \in 1..Len(rows) : \A j \in 1..Len(rows[i].limbs) :
-        rows[i].limbs[j].role = "pad" => ZeroAsserted(rows[i], rows[i].limbs[j])
+        rows[i].limbs[j].role = "pad" => ZeroAsserted(i, rows[i], rows[i].limbs[j])
 \* the direction bits of a path are bound when the accumulator is exposed at its last row (arity 2) or per bit (arity 4)
 EveryBitBound ==
     LET M == {i \in 1..Len(rows) : rows[i].kind = "merkle"} IN
